@@ -178,6 +178,41 @@ impl std::fmt::Display for Reentrant<'_> {
     }
 }
 
+static SWITCH_TZ: std::sync::atomic::AtomicBool = std::sync::atomic::AtomicBool::new(false);
+static POISON: std::sync::atomic::AtomicBool = std::sync::atomic::AtomicBool::new(false);
+
+/// the process's time zone changes (TZ is re-read by chrono's Local on every call); the zone stays
+/// switched for the following cases of this process
+fn switch_tz() {
+    static NEXT: std::sync::atomic::AtomicUsize = std::sync::atomic::AtomicUsize::new(0);
+    const ZONES: [&str; 5] = ["JST-9", "EST5", "Asia/Kolkata", "UTC0", "America/St_Johns"];
+    let k = NEXT.fetch_add(1, std::sync::atomic::Ordering::SeqCst);
+    if k % 3 == 2 {
+        // a zone whose daylight-saving time ends within the coming hour: the local wall-clock time
+        // of "now" is in the REPEATED hour (ambiguous), the situation of one night every autumn
+        use chrono::{Datelike, Timelike};
+        let u = chrono::Utc::now();
+        let day = u.ordinal(); // 1..366
+        let leap = u.date_naive().leap_year();
+        let jday = if leap && day > 59 { day - 1 } else { day }; // POSIX Jn never counts Feb 29
+        let end_hour = u.hour() + 2; // in DST wall-clock time (UTC+1): now is u+1h, the end is 0..1 h ahead
+        if end_hour < 24 && !(leap && day == 60) && jday >= 2 {
+            std::env::set_var("TZ", format!("XST0XDT-1,J1/0,J{}/{}", jday, end_hour));
+            return;
+        }
+    }
+    std::env::set_var("TZ", ZONES[k % ZONES.len()]);
+}
+
+/// a message that writes some text and then fails (std turns that into a panic of the formatting call)
+struct Failing;
+impl std::fmt::Display for Failing {
+    fn fmt(&self, f: &mut std::fmt::Formatter) -> std::fmt::Result {
+        f.write_str("STALE-TEXT-OF-A-FAILED-RECORD")?;
+        Err(std::fmt::Error)
+    }
+}
+
 fn body(case: &Val) -> Val {
     let c = case.l();
     let mode = c[0].n();
@@ -224,9 +259,39 @@ fn body(case: &Val) -> Val {
     // every other case of a process writes into a sink whose 2nd, 4th, ... write call is interrupted
     static CASE_NO: std::sync::atomic::AtomicUsize = std::sync::atomic::AtomicUsize::new(0);
     let intr = if CASE_NO.fetch_add(1, std::sync::atomic::Ordering::SeqCst) % 2 == 1 { 2 } else { 0 };
+    // mode 5: the encoder is BUILT, then the process's time zone changes, then the encoder is USED (an
+    // encoder lives as long as its appender: across every DST switch of the process's life)
+    let prebuilt: Option<PatternEncoder> = if SWITCH_TZ.swap(false, std::sync::atomic::Ordering::SeqCst) {
+        let e = std::panic::catch_unwind(|| PatternEncoder::new(&pattern)).ok();
+        switch_tz();
+        e
+    } else {
+        None
+    };
+    // mode 9: on this thread a record whose message fails half-way inside aligned / truncated fields was
+    // encoded (and the failure survived) before the observed record
+    if POISON.swap(false, std::sync::atomic::Ordering::SeqCst) {
+        for pat in ["[{m:>40}]", "{({l} {m}):>30.35}|{m:<20}|{m:.50}", "{h({m:>25})}"] {
+            let _ = std::panic::catch_unwind(|| {
+                let enc = PatternEncoder::new(pat);
+                let mut cap = Cap { ev: vec![], cur: vec![], intr: 0, calls: 0 };
+                let _ = enc.encode(
+                    &mut cap,
+                    &log::Record::builder().level(log::Level::Warn).args(format_args!("x{}y", Failing)).build(),
+                );
+            });
+        }
+    }
     let attempt = || -> Val {
         let res = std::panic::catch_unwind(std::panic::AssertUnwindSafe(|| {
-            let enc = PatternEncoder::new(&pattern);
+            let built;
+            let enc: &PatternEncoder = match &prebuilt {
+                Some(e) => e,
+                None => {
+                    built = PatternEncoder::new(&pattern);
+                    &built
+                }
+            };
             if mode == 2 {
                 return Val::text("ok");
             }
@@ -363,29 +428,15 @@ fn run(case: &Val) -> Val {
     let thread = opt_cps(&case.l()[4]);
     let mut case = case.clone();
     if case.l()[0].n() == 5 {
-        // mode 5: the process's time zone changes (TZ is re-read by chrono's Local on every
-        // call), then the case runs as mode 1.  The date oracle is rendered after the switch,
-        // and the zone stays switched for the following cases of this process.
-        static NEXT: std::sync::atomic::AtomicUsize = std::sync::atomic::AtomicUsize::new(0);
-        const ZONES: [&str; 5] = ["JST-9", "EST5", "Asia/Kolkata", "UTC0", "America/St_Johns"];
-        let k = NEXT.fetch_add(1, std::sync::atomic::Ordering::SeqCst);
-        if k % 3 == 2 {
-            // a zone whose daylight-saving time ends within the coming hour: the local wall-clock time
-            // of "now" is in the REPEATED hour (ambiguous), the situation of one night every autumn
-            use chrono::{Datelike, Timelike};
-            let u = chrono::Utc::now();
-            let day = u.ordinal(); // 1..366
-            let leap = u.date_naive().leap_year();
-            let jday = if leap && day > 59 { day - 1 } else { day }; // POSIX Jn never counts Feb 29
-            let end_hour = u.hour() + 2; // in DST wall-clock time (UTC+1): now is u+1h, the end is 0..1 h ahead
-            if end_hour < 24 && !(leap && day == 60) && jday >= 2 {
-                std::env::set_var("TZ", format!("XST0XDT-1,J1/0,J{}/{}", jday, end_hour));
-            } else {
-                std::env::set_var("TZ", ZONES[k % ZONES.len()]);
-            }
-        } else {
-            std::env::set_var("TZ", ZONES[k % ZONES.len()]);
-        }
+        // mode 5: the process's time zone changes AFTER the encoder was built (see `body`); the case is
+        // handed on as mode 1 with the flag below
+        SWITCH_TZ.store(true, std::sync::atomic::Ordering::SeqCst);
+        let mut items = case.l().to_vec();
+        items[0] = Val::N(1);
+        case = Val::L(items);
+    }
+    if case.l()[0].n() == 9 {
+        POISON.store(true, std::sync::atomic::Ordering::SeqCst);
         let mut items = case.l().to_vec();
         items[0] = Val::N(1);
         case = Val::L(items);
